@@ -94,6 +94,20 @@ def _logged_recv_bytes(self, *a, **kw):
 bconn.Connection.recv_bytes = _logged_recv_bytes
 
 
+def _feeder_error(msg, *args, **kw):
+    """Stands in for util.error inside Queue._feed: an exception that ends a
+    feeder thread is recorded for the oracle's message instead of being
+    printed (a feeder unwinding because its execution was abandoned passes
+    through here as well; that happens after the oracle ran)."""
+    env = _CUR
+    if env is not None:
+        env.feeder_errors.append((msg % args)[:120] if args else msg)
+    return True
+
+
+bq.error = _feeder_error
+
+
 class DelayChoices(vs.Choices):
     """Cost model 'D' (delay bounding): *every* scheduling choice other than
     the canonical one (running vthread continues; when it blocks or ends, the
@@ -121,6 +135,7 @@ class Env:
         self.tickets = 0
         self.nput_ok = 0
         self.prod_left = 0        # producer threads of a shared object
+        self.feeder_errors = []
 
     def ev(self, *a):
         self.log.append(a + (self.sched.now,))
@@ -427,10 +442,14 @@ def _oracle(env, status):
                     'task_done at every moment of the call' % low)
     # -- termination and conservation
     if status != 'done':
-        stuck = [repr(t) for t in sched.threads if t.state != 'done']
+        stuck = [repr(t).replace('pid=%d ' % vos.MAIN_PID, 'pid=MAIN ')
+                 for t in sched.threads if t.state != 'done']
         lost = sorted(set(expected) - set(got))
         return ('%s: the reference model can always progress, the queue '
-                'cannot; stuck=%r not yet received=%r' % (status, stuck, lost))
+                'cannot; stuck=%r not yet received=%r%s' % (
+                    status, stuck, lost,
+                    ' feeder errors=%r' % (env.feeder_errors,)
+                    if env.feeder_errors else ''))
     if sorted(got) != expected:
         return ('objects lost: put %r, received %r' % (expected, sorted(got)))
     return None
@@ -729,6 +748,17 @@ def passes(cfg, tier):
     smallest = nvt <= 3 and items == 1 and plain and \
         cfg.get('orig') == 'p0' and cfg['kind'] != 'simple'
     out = []
+    if cfg.get('pthreads') or cfg.get('cthreads'):
+        # line-level points roughly double the decisions of an execution
+        if tier == 'thorough':
+            out.append(('D', 2))
+            if nvt <= 4 and items <= 2:
+                out.append(('P', 1))
+        else:
+            out.append(('D', 2 if plain and cfg.get('pthreads') and
+                        cfg['kind'] != 'joinable' and cfg['maxsize'] <= 1
+                        and nvt <= 4 else 1))
+        return out
     if tier == 'thorough':
         out.append(('D', 3 if nvt <= 3 or (nvt == 4 and items <= 2 and
                                            cfg['kind'] != 'joinable') else 2))
@@ -761,7 +791,9 @@ def _heavy(cb):
     cfg, bound = cb
     if cfg['model'] == 'P':
         return bound >= 2 or _nvt(cfg) >= 4
-    return bound >= 3 or (bound == 2 and (_nvt(cfg) >= 5 or _items(cfg) > 2))
+    return bound >= 3 or (bound == 2 and bool(
+        _nvt(cfg) >= 5 or _items(cfg) > 2 or cfg.get('pthreads') or
+        cfg.get('cthreads')))
 
 
 def _weight(cb):
